@@ -386,6 +386,10 @@ def pred_c03(line, st):
     if op.startswith("args.") and ".prove." in op and tag_of(a) == "honest":
         if not r or r[0] != "1":
             return "honest prover of the %s argument gave up (%s)" % (op.split(".")[1], r[0] if r else "?")
+    if op == "prop.rabin" and a and a[0] == "generate":
+        st["c03_rabin_keys"] = st.get("c03_rabin_keys", 0) + 1
+        if not r or r[0] != "check=1":
+            return "key validation refused a key (with its proof) that the library generated itself (%s)" % " ".join(a[1:4])
     if op == "zk.keypc.prove" and tag_of(a) == "honest":
         if not r or r[0] != "1":
             return "honest public-coin prover gave up (%s) although the verifier followed the protocol" % (r[0] if r else "?")
@@ -497,23 +501,26 @@ PROPS["C02"] = dict(
 )
 PROPS["C03"] = dict(
     module="TmcgProps.C03",
-    areas=ZK_AREAS,
+    areas=ZK_AREAS + [("rabin", {"quick": 4, "thorough": 8}, ["--no-sqrt"], "san")],
     obligations=[("Tmcg.C03.vrhe_complete_noninteractive", "full"), ("Tmcg.C03.vrhe_complete_interactive", "full"), ("Tmcg.C03.vrhe_complete_publiccoin", "full"),
                  ("Tmcg.C03.groth_complete_noninteractive", "full"), ("Tmcg.C03.groth_complete_interactive", "full"), ("Tmcg.C03.groth_complete_publiccoin", "full"),
                  ("Tmcg.C03.stackeq_complete", "full"), ("Tmcg.C03.mix_glue", "full"),
                  ("Tmcg.C03.nizk_complete", "full"), ("Tmcg.C03.cp_complete", "full"), ("Tmcg.C03.mask_complete", "full"),
                  ("Tmcg.C03.remask_complete", "full"), ("Tmcg.C03.decrypt_complete", "full"),
                  ("Tmcg.C03.or_first_complete", "full"), ("Tmcg.C03.or_second_complete", "full"),
-                 ("Tmcg.C03.key_interactive_complete", "full")],
+                 ("Tmcg.C03.key_interactive_complete", "full"),
+                 ("Tmcg.C03.rabin_response_ok1", "full"), ("Tmcg.C03.rabin_response_ok2", "full"), ("Tmcg.C03.rabin_response_ok3", "full"),
+                 ("Tmcg.C03.rabin_nizk_complete", "full"), ("Tmcg.C03.rabin_check_generate", "full")],
     predicate=pred_c03,
     level_text="Completeness theorems in Lean 4 for the VTMF's proofs of knowledge (key NIZK, Chaum-Pedersen in both modes, masking, re-masking, decryption, OR, interactive key proof) and for the cut-and-choose proof of stack equality (shuffle and rotation, every size 1..TMCG_MAX_CARDS, every number of rounds and challenge bits, through the text codec): "
                "for every valid group, witness, coin and hash the model verifier accepts the model prover's transcript. Prover and verifier of the real library are each compared "
                "separately with the model (same coins, same oracle answers, byte-identical hash queries). Rotation argument (Hoogh et al. VRHE with PUBROTZK) and Groth's shuffle argument (VSSHE with SKC and Pedersen commitments): completeness in all three modes for every n >= 2, every rotation/permutation and all coins "
                "(Groth: under the three conditions on the verifier's coins under which the library itself refuses an honest proof), real prover -> real verifier and each vs the model for n = 2..9, 16, 32, 52. "
-               "Partial: the NIZK stages of Rabin key generation are covered by correspondence only.",
+               "Rabin keys: the prover of the three NIZK stages inside key generation and the verifier in key validation are modelled; every response passes its stage (Euler / the four candidates +-x, +-2x / x or xy), the text is parsed back round by round and every generated key passes key validation (area rabin: every key the harness generates, with and without proof, is reproduced by the model and validated by the real check).",
     level_note=LEVEL_NOTE,
     trusted=ZK_TRUST,
-    assumptions=["partial: completeness theorems exist for the discrete-log VTMF proofs; Rabin-key NIZK stages: correspondence (real prover -> real verifier, and each vs model where modelled) only"],
+    assumptions=["Rabin key NIZK: mpz_probab_prime_p sound on the cofactor q; KeyIdOk (self-signature value has at least 8 base-62 digits)",
+                 "Groth's argument: completeness under the three coin conditions under which the library itself refuses an honest proof"],
 )
 PROPS["C08"] = dict(
     module="TmcgProps.C08",
